@@ -13,6 +13,7 @@ CONSTANTS
   TIL = 2
   MaxFails = 2
   MinBkt = 1
+  MaxGen = 1
   MaxChecks = 3
   Ops = {"add","delete","reval","track"}
   Devs = {}
